@@ -15,7 +15,11 @@ def handle (line : String) : Verdict :=
   | .ok j =>
     let mode := (fieldD j "mode").getStr?.toOption.getD ""
     let r : R Verdict :=
-      if mode == "ctl" then CtlReplay.replay j
+      -- an in-process call into the implementation that did not come back (written by the harness's watchdog)
+      if (fieldD j "hang").getBool?.toOption == some true && mode != "ctl" && mode != "proc" then
+        let w := s!"C15: the call into the implementation did not return within {(fieldD j "limitSeconds").compress} s (correspondence {mode}, case {(fieldD j "case").compress}): an endless loop or a dead lock"
+        pure { case := (fieldD j "case").getNat?.toOption.getD 0, kind := "PROPFAIL", props := ["C15"], what := w, tags := ["hang"], size := 1, fails := [w] }
+      else if mode == "ctl" then CtlReplay.replay j
       else if mode == "ctllong" then CtlReplay.replayLong j
       else if mode == "codec" then CodecReplay.replay j
       else if mode == "ops" then OpsReplay.replay j
